@@ -15,3 +15,5 @@ import DefconModel.Lemmas.Geom.Reverse
 import DefconModel.Lemmas.Geom.SetStart
 import DefconModel.Lemmas.Geom.Cyclic
 import DefconModel.Lemmas.Geom.Rotate
+import DefconModel.Lemmas.Geom.RevSeg
+import DefconModel.Lemmas.Geom.RevArea
